@@ -4,7 +4,7 @@
 
 #![allow(deprecated)]
 
-use crate::arena::{Slot, SimArc, KA, KB};
+use crate::arena::{Slot, SimArc, SimWeak, KA, KB};
 use arc_swap::strategy::test_strategies::FillFastSlots;
 use arc_swap::{ArcSwapAny, Guard, RefCnt};
 use std::cell::RefCell;
@@ -13,6 +13,7 @@ use verif_rt::vclock::VClock;
 
 pub type SA = SimArc<KA>;
 pub type SB = SimArc<KB>;
+pub type WA = SimWeak<KA>;
 pub type FF = FillFastSlots;
 pub type DS = arc_swap::DefaultStrategy;
 
@@ -20,6 +21,8 @@ pub type DS = arc_swap::DefaultStrategy;
 pub enum HVal {
     A(Option<SA>),
     B(Option<SB>),
+    /// a weak handle (possibly dangling)
+    W(WA),
 }
 
 impl HVal {
@@ -27,6 +30,7 @@ impl HVal {
         match self {
             HVal::A(Some(x)) => x.peek_uid(),
             HVal::B(Some(x)) => x.peek_uid(),
+            HVal::W(x) => x.peek_uid(),
             _ => 0,
         }
     }
@@ -34,13 +38,18 @@ impl HVal {
         match self {
             HVal::A(Some(x)) => x.addr(),
             HVal::B(Some(x)) => x.addr(),
+            HVal::W(x) => x.addr(),
             _ => 0,
         }
+    }
+    pub fn is_weak(&self) -> bool {
+        matches!(self, HVal::W(_))
     }
     pub fn clone_val(&self) -> HVal {
         match self {
             HVal::A(x) => HVal::A(x.clone()),
             HVal::B(x) => HVal::B(x.clone()),
+            HVal::W(x) => HVal::W(x.clone()),
         }
     }
     /// Touching read of the identity (0 for null).
@@ -48,6 +57,7 @@ impl HVal {
         match self {
             HVal::A(Some(x)) => x.uid(),
             HVal::B(Some(x)) => x.uid(),
+            HVal::W(x) => x.peek_uid(),
             _ => 0,
         }
     }
@@ -177,6 +187,49 @@ impl PtrT for Option<SA> {
     }
 }
 
+impl PtrT for WA {
+    const NULLABLE: bool = true;
+    const KIND: u8 = 1;
+    fn from_h(h: HVal) -> Result<Self, HVal> {
+        match h {
+            HVal::W(x) => Ok(x),
+            // a strong handle is downgraded (the strong reference is released afterwards)
+            HVal::A(Some(x)) => {
+                let w = x.downgrade();
+                drop(x);
+                Ok(w)
+            }
+            HVal::A(None) => Ok(WA::dangling()),
+            o => Err(o),
+        }
+    }
+    fn into_h(self) -> HVal {
+        HVal::W(self)
+    }
+    fn fresh(val: u64) -> Self {
+        // a weak pointer to a value that is dropped right away: target already destroyed
+        let s = SA::new(val);
+        let w = s.downgrade();
+        drop(s);
+        w
+    }
+    fn null() -> Option<Self> {
+        Some(WA::dangling())
+    }
+    fn uid_touch(&self) -> u32 {
+        SimWeak::peek_uid(self)
+    }
+    fn val_touch(&self) -> u64 {
+        0
+    }
+    fn peek_uid(&self) -> u32 {
+        SimWeak::peek_uid(self)
+    }
+    fn addr(&self) -> usize {
+        SimWeak::addr(self)
+    }
+}
+
 /// Containers of every (pointer type, strategy) combination exercised.
 pub enum Cont {
     AD(ArcSwapAny<SA, DS>),
@@ -185,6 +238,8 @@ pub enum Cont {
     OF(ArcSwapAny<Option<SA>, FF>),
     BD(ArcSwapAny<SB, DS>),
     BF(ArcSwapAny<SB, FF>),
+    /// a container of weak pointers (ArcSwapWeak)
+    WD(ArcSwapAny<WA, DS>),
 }
 
 pub enum AnyGuard {
@@ -194,6 +249,7 @@ pub enum AnyGuard {
     OF(Guard<Option<SA>, FF>),
     BD(Guard<SB, DS>),
     BF(Guard<SB, FF>),
+    WD(Guard<WA, DS>),
 }
 
 /// Runs `$body` with `$c` bound to the concrete container and `$wrap` to the matching
@@ -232,6 +288,11 @@ macro_rules! with_cont {
                 let $wrap = $crate::world::AnyGuard::BF;
                 $body
             }
+            $crate::world::Cont::WD($c) => {
+                #[allow(unused_variables)]
+                let $wrap = $crate::world::AnyGuard::WD;
+                $body
+            }
         }
     };
 }
@@ -246,6 +307,7 @@ macro_rules! with_guard {
             $crate::world::AnyGuard::OF($x) => $body,
             $crate::world::AnyGuard::BD($x) => $body,
             $crate::world::AnyGuard::BF($x) => $body,
+            $crate::world::AnyGuard::WD($x) => $body,
         }
     };
 }
@@ -416,6 +478,10 @@ pub struct World {
     pub prog_readonly_churn: bool,
     pub gen_set: Vec<bool>,
     pub payall_depth: Vec<u32>,
+    pub payall_ptr: Vec<usize>,
+    pub inflight_storages: Vec<(usize, u8)>,
+    pub dropping_kind: Vec<Option<u8>>,
+    pub addr_seen_in: std::collections::BTreeMap<usize, (bool, bool)>,
 }
 
 thread_local! {
